@@ -292,7 +292,7 @@ def provenance(q, rng, prob=0.7):
             p.add(ln); continue
         shape, vals = parsed
         rank = len(shape)
-        routes = ['const-patch', 'slice-of-larger', 'reshape-flat']
+        routes = ['const-patch', 'slice-of-larger', 'reshape-flat'] + (['reduce-unit-dim', 'reduce-unit-dim'] if depth <= 3 else [])
         if shape[0] >= 2: routes.append('concat')
         if rank >= 2: routes += ['transpose', 'const-patch-part']
         route = rng.choice(routes)
@@ -334,6 +334,12 @@ def provenance(q, rng, prob=0.7):
             p.add('%s = tensorof U %d %s' % (b, depth, _lit([shape[0] - kk] + shape[1:], vals[kk * n0:])))
             poke(a)
             p.add('%s = concat %s,%s 0' % (name, a, b))
+        elif route == 'reduce-unit-dim':
+            # the result of a reducer along a dimension of size 1 (MaxAlong / MinAlong keep every value, signed zeros and NaN
+            # included): a tensor whose shape was derived by REMOVING a dimension from another one
+            kd = rng.randint(0, rank)
+            big = tmp(); p.add('%s = tensorof U %d %s' % (big, depth + 1, _lit(shape[:kd] + [1] + shape[kd:], vals))); poke(big)
+            p.add('%s = %salong %s %d' % (name, rng.choice(['max', 'min']), big, kd))
         elif route == 'reshape-flat':
             flat = tmp(); p.add('%s = tensorof U 1 %s' % (flat, _lit([len(vals)], vals))); poke(flat)
             p.add('%s = reshape %s %s' % (name, flat, ints(shape)))
@@ -444,3 +450,144 @@ def errors_first(q, rng):
     error_prelude(p, rng)
     p.lines += q.lines
     return p
+
+
+# ---------------------------------------------------------------------------------------------------- concurrent replicas
+_NO_REPLICA = ('seedrng', 'randu', 'randn', 'initcall', 'par', 'thread', 'init')
+
+def replicas(q, rng, n=None):
+    """Rewrite program `q`: the whole program runs in `n` goroutines at once, each replica on its own tensors and component
+    objects (every name is made thread-local). Nothing is shared between the replicas except what the LIBRARY shares behind
+    the caller's back — package-level scratch buffers, pooled objects, memo tables, a parallel kernel whose result depends on
+    which worker finishes first. The model runs the replicas one after the other; an operation that is a function of its
+    operands gives every replica exactly the sequential result. (Programs that draw random numbers are left out: the global
+    source is meant to be shared.)"""
+    for ln in q.lines:
+        toks = ln.split(' ')
+        cmd = toks[2] if len(toks) > 2 and toks[1] == '=' else toks[0]
+        if cmd in _NO_REPLICA:
+            return None
+        if cmd == 'fc' and not ('W=' in ln and 'B=' in ln):
+            return None          # default initializers draw from the global source
+    n = n or rng.choice([3, 4, 8])
+    names = set()
+    for ln in q.lines:
+        toks = ln.split(' ')
+        if len(toks) > 2 and toks[1] == '=':
+            names.add(toks[0])
+    p = Prog(q.name + '_rep', **q.opts)
+    p.tags = set(q.tags) | {'concurrent-replicas', 'replicas%d' % n}
+    p.add('par')
+    for tid in range(n):
+        p.add('thread')
+        def ren(tok):
+            if tok in names:
+                return 'th%d_%s' % (tid, tok)
+            if ',' in tok:
+                return ','.join(ren(x) for x in tok.split(','))
+            if '=' in tok and tok.count('=') == 1:
+                k, v = tok.split('=')
+                if v in names:
+                    return '%s=th%d_%s' % (k, tid, v)
+            return tok
+        for ln in q.lines:
+            p.add(' '.join(ren(t) for t in ln.split(' ')))
+        p.add('endthread')
+    p.add('endpar')
+    return p
+
+
+# ---------------------------------------------------------------------------------------------------- resets in odd places
+import re as _re
+_TNAME = _re.compile(r'^t\d+$')
+
+def resets(q, rng):
+    """Rewrite program `q`: `ResetGradContext` is called where a caller may call it but the generators' own programs do not —
+    on a leaf or an intermediate result BETWEEN building a graph and back-propagating it (the "zero the gradients right before
+    backward" habit), with the flag the tensor already has or the other one, on tensors a back-propagation has spent and on
+    tensors computed from them; afterwards a tensor computed from a spent one is detached with ResetGradContext(false) and
+    used, next to a fresh tracked tensor of its shape, in a new graph that is back-propagated. A reset makes the tensor a fresh leaf with
+    the given flag — nothing else, whatever state its old context was in."""
+    if any(l.startswith('par') for l in q.lines):
+        return None
+    p = Prog(q.name + '_rst', **q.opts)
+    p.tags = set(q.tags) | {'resets-in-odd-places'}
+    p._n = 200000
+    leaves, tensors = [], []
+    done = 0
+    last_bp_root = None
+    for ln in q.lines:
+        toks = ln.split(' ')
+        if toks[0] == 'bp' and len(toks) == 2 and tensors and rng.random() < 0.6:
+            # before the walk: reset a leaf (mostly to the flag it has) or an intermediate tensor
+            pool = leaves if (leaves and rng.random() < 0.6) else tensors
+            t, tr = rng.choice(pool)
+            flag = (1 if tr else 0) if rng.random() < 0.7 else rng.choice([0, 1])
+            p.add('reset %s %d' % (t, flag)); done += 1
+        p.add(ln)
+        if toks[0] == 'bp' and len(toks) == 2:
+            last_bp_root = toks[1]
+            if tensors and rng.random() < 0.4:
+                t, tr = rng.choice(tensors)
+                p.add('reset %s %d' % (t, rng.choice([0, 1]))); p.add('obs %s' % t); done += 1
+        if len(toks) > 2 and toks[1] == '=' and _TNAME.match(toks[0]):
+            if toks[2] == 'tensorof' and toks[3] in ('T', 'U'):
+                leaves.append((toks[0], toks[3] == 'T'))
+            tensors.append((toks[0], toks[2] == 'tensorof' and toks[3] == 'T'))
+    if last_bp_root is not None and tensors:
+        # a tensor computed from a spent one, detached, in a new graph next to a fresh tracked scalar
+        s0, _ = rng.choice(tensors)
+        u = p.bind('scale %s %s' % (s0, f2b(1.0)))
+        p.add('reset %s 0' % u)
+        v = p.bind('scale %s %s' % (p.bind('pow %s %s' % (u, f2b(0.0))), f2b(rng.choice([0.5, 2.0, -1.5]))))   # same shape as u
+        p.add('reset %s 1' % v)
+        z = p.bind('mul %s %s' % (u, v))
+        p.add('bp %s' % z); p.add('obs %s' % v); p.add('obs %s' % u); p.add('obs %s' % s0)
+        # ... and a tracked intermediate result made a fresh leaf: nothing behind it is reached any more
+        w0, _ = rng.choice(tensors)
+        b1 = p.bind('scale %s %s' % (w0, f2b(2.0)))
+        p.add('reset %s 1' % b1)
+        c1 = p.bind('scale %s %s' % (b1, f2b(3.0)))
+        p.add('bp %s' % c1); p.add('obs %s' % b1); p.add('obs %s' % w0)
+        done += 2
+    return p if done else None
+
+
+def derived_tensor(p, rng, shape, vals, conf='U'):
+    """a tensor of the given shape and values that is the RESULT of a library operation rather than a constructor's: a reducer
+    along a unit dimension, Squeeze of a unit dimension, Reshape of the flat data, a Slice of a larger tensor, Transpose of the
+    transposed data, Flatten of a split leading dimension — internal representations (shape slices with spare capacity, shared
+    rows, views) differ by provenance; results must not"""
+    r = len(shape)
+    routes = ['reshape', 'slice']
+    if r <= 3: routes += ['reduce', 'reduce', 'squeeze']
+    if r >= 2: routes.append('transpose')
+    how = rng.choice(routes)
+    p.tag('derived-operand', 'derived:' + how)
+    if how in ('reduce', 'squeeze'):
+        k = rng.randint(0, r)
+        big = p.tensor(shape[:k] + [1] + shape[k:], vals)
+        t = p.bind(('%salong %s %d' % (rng.choice(['max', 'min']), big, k)) if how == 'reduce' else 'squeeze %s %d' % (big, k))
+    elif how == 'reshape':
+        flat = p.tensor([len(vals)], vals)
+        t = p.bind('reshape %s %s' % (flat, ints(shape)))
+    elif how == 'slice':
+        if r == 0:
+            big = p.tensor([2], [vals[0], vals[0] + 1.0]); t = p.bind('reshape %s -' % p.bind('slice %s 0:1' % big))
+        else:
+            n0 = prod(shape[1:])
+            big = p.tensor([shape[0] + 1] + shape[1:], [vals[(3 * i) % len(vals)] for i in range(n0)] + list(vals))
+            t = p.bind('slice %s 1:%d' % (big, shape[0] + 1))
+    else:
+        rr, cc = shape[-2], shape[-1]
+        nb = prod(shape[:-2])
+        tv = []
+        for bi in range(nb):
+            blk = vals[bi * rr * cc:(bi + 1) * rr * cc]
+            for j in range(cc):
+                for i in range(rr):
+                    tv.append(blk[i * cc + j])
+        t = p.bind('transpose %s' % p.tensor(shape[:-2] + [cc, rr], tv))
+    if conf == 'T':
+        p.add('reset %s 1' % t)
+    return t
